@@ -4,8 +4,9 @@ import Agd.Tie.C07
 # C07 — concurrent clients never see each other's answers, policies or identities
 
 Property theorems only, about the ownership model `Agd/Model/Pools.lean` of the message cloner
-(`Cloner.Clone` / `Dispose`, the per-type clone/put pairs, the pooled constructors).  Helper lemmas
-live in `Agd/Lemmas/Pools.lean`.
+(`Cloner.Clone` / `Dispose`, the per-type clone/put pairs, the pooled constructors, and Go's `append` on the
+slices of a message whose backing arrays — spare capacity included — are objects of their own).  Helper
+lemmas live in `Agd/Lemmas/Pools.lean`.
 -/
 namespace Agd.Pools
 
@@ -24,14 +25,19 @@ def target : Op → Nat
   | .dispose h => h
   | .make d _ _ _ => d
   | .poke h _ _ _ => h
+  | .grow h _ _ _ => h
+  | .ins d _ _ _ _ => d
 
-/-- Side conditions of one operation: new handles are unused, foreign messages are well formed. -/
+/-- Side conditions of one operation: new handles are unused, foreign messages are well formed, an in-place
+`append` does not write into a cell that a sibling object of the same message uses (`GrowOk`). -/
 def OpOk (s : St) : Op → Prop
   | .new d span ps => s.live d = none ∧ SpecsOk span ps
   | .clone a b => s.live b = none ∧ a ≠ b
   | .dispose _ => True
   | .make _ _ _ _ => True
   | .poke _ _ _ _ => True
+  | .grow h i _ _ => GrowOk s h i
+  | .ins _ _ _ _ _ => True
 
 /-- The ownership discipline over a history (handles model "disposed at most once, never used after"). -/
 def Disc (s : St) : List Op → Prop
@@ -133,6 +139,8 @@ theorem inv_step (s : St) (op : Op) (hi : Inv s) (hok : OpOk s op) : Inv (step s
   | dispose h => exact dispose_inv s h hi
   | make d u k vs => exact (mkAppend_spec s d u k vs hi).1
   | poke h i j v => exact (poke_spec s h i j v hi).1
+  | grow h i v c => exact (grow_spec s h i v c hi hok).1
+  | ins d pos u k vs => exact (ins_spec s d pos u k vs hi).1
 
 /-- pool_inv: over every disciplined history the ownership invariant holds. -/
 theorem pool_inv (s : St) (ops : List Op) (hi : Inv s) (hd : Disc s ops) : Inv (run s ops) := by
@@ -251,6 +259,20 @@ theorem step_frame (s : St) (op : Op) (hi : Inv s) (hok : OpOk s op) (h : Nat) (
       rw [l1]
     · intro m hm o ho
       exact f1 h m hne hm o ho
+  | grow t i v c =>
+    obtain ⟨_, l1, f1⟩ := grow_spec s t i v c hi hok
+    apply view_eq
+    · exact l1 h hne
+    · intro m hm o ho
+      exact f1 h m hne hm o ho
+  | ins d pos u k vs =>
+    obtain ⟨_, l1, _, _, f1⟩ := ins_spec s d pos u k vs hi
+    replace hne : h ≠ d := hne
+    apply view_eq
+    · show (insertLive (mkObj s u k vs).1 d pos (mkObj s u k vs).2.1).live h = s.live h
+      rw [insertLive_other _ _ _ _ _ hne, l1]
+    · intro m hm o ho
+      exact f1 h m hm o ho
 
 /-- Non-vacuity of `step_frame`: constructing into a new message recycles the pooled buffer; message 1
 stays as it was (and is not empty). -/
@@ -275,6 +297,76 @@ and modifies other messages. -/
 example : view (run demoSt demoOps2) 1 = view demoSt 1 :=
   isolation demoSt demoOps2 demo_inv demo_disc2 1 (by decide)
 
+/-! ### Slices with spare capacity: `append` in place, `append` with relocation, insertion -/
+
+/-- A foreign message whose first object is an empty array with room for two values and whose second object
+is a full array. -/
+def spareMsg : List Spec := [⟨33, 0, 2, []⟩, ⟨7, 2, 1, [5]⟩]
+
+theorem specsOk_spare : SpecsOk 3 spareMsg := specsOk_of _ _ (by decide) (by decide) (by decide)
+
+/-- What happens next to `demoSt` (handle 1 is not targeted): a message with spare capacity enters as
+handle 4; two appends go into the spare cells, the third moves the array; the full array is moved by its
+first append; an address buffer is inserted between the two (it recycles the pooled buffer at cell 4) and
+is appended to in place; the message is cloned and released. -/
+def demoOps3 : List Op :=
+  [.new 4 3 spareMsg, .grow 4 0 7 0, .grow 4 0 8 0, .grow 4 0 9 4, .grow 4 1 6 0,
+   .ins 4 1 true kBuf [6, 6], .grow 4 1 3 0, .clone 4 5, .dispose 4]
+
+theorem demo_disc3 : Disc demoSt demoOps3 := by
+  simp only [demoOps3, Disc, OpOk]
+  exact ⟨⟨by decide, specsOk_spare⟩, by decide, by decide, by decide, by decide, trivial, by decide,
+    ⟨by decide, by decide⟩, trivial, trivial⟩
+
+/-- Non-vacuity of `pool_inv` with `grow` and `ins`. -/
+example : Inv (run demoSt demoOps3) := pool_inv _ _ demo_inv demo_disc3
+
+/-- The history does what its description says: in place twice (cells 100, 101), then relocated; the inserted
+buffer is the recycled one (start 4, capacity 16) and grew in place; the clone holds all of it. -/
+example :
+    ((run demoSt (demoOps3.take 3)).live 4) = some [⟨33, 100, 2, 2⟩, ⟨7, 102, 1, 1⟩] ∧
+    ((run demoSt (demoOps3.take 7)).live 4) = some [⟨33, 103, 3, 4⟩, ⟨1, 4, 3, 16⟩, ⟨7, 107, 2, 2⟩] ∧
+    view (run demoSt demoOps3) 5 = some [(33, [7, 8, 9]), (1, [6, 6, 3]), (7, [5, 6])] ∧
+    view (run demoSt demoOps3) 4 = none := by decide
+
+/-- Non-vacuity of `isolation` for `grow` / `ins`: message 1 of `demoSt`, whose released original's buffer
+is recycled and appended to by another message, stays as it was. -/
+example : view (run demoSt demoOps3) 1 = view demoSt 1 :=
+  isolation demoSt demoOps3 demo_inv demo_disc3 1 (by decide)
+
+/-- grow_isolated: appending to a slice of one message — into its spare capacity or with relocation — never
+alters another live message. -/
+theorem grow_isolated (s : St) (h i v c : Nat) (hi : Inv s) (hok : GrowOk s h i) (h2 : Nat) (hne : h2 ≠ h) :
+    view (grow s h i v c) h2 = view s h2 :=
+  step_frame s (.grow h i v c) hi hok h2 hne
+
+/-- Non-vacuity of `grow_isolated`, in place: the first buffer of message 1 (4 of 16 cells in use) is
+appended to while message 4 is live. -/
+example :
+    let s := run demoSt (demoOps3.take 3)
+    view (grow s 1 0 9 0) 4 = view s 4 ∧ view s 4 = some [(33, [7, 8]), (7, [5])] ∧
+    view (grow s 1 0 9 0) 1 ≠ view s 1 ∧ (grow s 1 0 9 0).next = s.next := by
+  refine ⟨grow_isolated _ 1 0 9 0 (pool_inv _ _ demo_inv ?_) (by decide) 4 (by decide), by decide, by decide,
+    by decide⟩
+  simp only [demoOps3, List.take, Disc, OpOk]
+  exact ⟨⟨by decide, specsOk_spare⟩, by decide, by decide, trivial⟩
+
+/-- Non-vacuity of `grow_isolated`, with relocation: the full array of message 4 moves. -/
+example :
+    let s := run demoSt (demoOps3.take 3)
+    view (grow s 4 0 9 4) 1 = view s 1 ∧ (grow s 4 0 9 4).next = s.next + 4 := by
+  refine ⟨grow_isolated _ 4 0 9 4 (pool_inv _ _ demo_inv ?_) (by decide) 1 (by decide), by decide⟩
+  simp only [demoOps3, List.take, Disc, OpOk]
+  exact ⟨⟨by decide, specsOk_spare⟩, by decide, by decide, trivial⟩
+
+/-- The side condition `GrowOk` is not trivially true: in the message `miekg/dns` unpacks, the first hint's
+spare capacity *is* the second hint, so an in-place append to the first overwrites the second — inside one
+message, and excluded by `GrowOk`. -/
+example :
+    let s := newMsg St.init 0 20 miekgFiveHints
+    ¬ GrowOk s 0 0 ∧ GrowOk s 0 4 ∧
+    view (grow s 0 0 9 0) 0 ≠ (view s 0).map (fun l => growView l 0 9) := by decide
+
 /-- make_content: a constructed object has exactly the requested fields, whatever the pools held. -/
 theorem make_content (s : St) (d : Nat) (u : Bool) (k : Nat) (vs : List Nat) (hi : Inv s) :
     ∃ pre o, (make s d u k vs).1.live d = some (pre ++ [o]) ∧ o.kind = k ∧
@@ -296,6 +388,30 @@ theorem no_alias (s : St) (ops : List Op) (hi : Inv s) (hd : Disc s ops) (n : Na
     anyAlias (run s ops) n = false :=
   anyAlias_false _ (pool_inv s ops hi hd) n
 
+
+/-- no_cap_alias: no two live messages share reachable storage, spare capacity included, after any
+disciplined history — so no `append` by the holder of one message can write into another. -/
+theorem no_cap_alias (s : St) (ops : List Op) (hi : Inv s) (hd : Disc s ops) (n : Nat) :
+    anyCapAlias (run s ops) n = false :=
+  anyCapAlias_false _ (pool_inv s ops hi hd) n
+
+/-- Non-vacuity of `no_cap_alias`: histories with recycling, in-place appends, relocation and insertion. -/
+example : anyCapAlias (run St.init demoOps) 10 = false := no_cap_alias _ _ inv_init demo_disc 10
+example : anyCapAlias (run demoSt demoOps3) 10 = false := no_cap_alias _ _ demo_inv demo_disc3 10
+example : anyCapAlias (run demoSt (demoOps3.take 8)) 10 = false ∧
+    ((run demoSt (demoOps3.take 8)).live 4).isSome = true ∧
+    ((run demoSt (demoOps3.take 8)).live 5).isSome = true := by decide
+
+/-- The check is not trivially false, and what it excludes is real: a state in which two live messages share
+one empty array that has spare capacity (length 0, capacity 1 — no cell *in use* is shared, `anyAlias` does
+not see it).  Both holders append; the second append overwrites what the first holder appended.  This is
+exactly what the invariant (`Inv.liveSep`, on capacities) excludes. -/
+example :
+    let a : Obj := ⟨33, 0, 0, 1⟩
+    let s0 : St := { St.init with next := 1, live := setLive (setLive St.init.live 1 (some [a])) 2 (some [a]) }
+    anyCapAlias s0 3 = true ∧ anyAlias s0 3 = false ∧
+    view (grow s0 1 0 7 1) 1 = some [(33, [7])] ∧
+    view (grow (grow s0 1 0 7 1) 2 0 9 1) 1 ≠ view (grow s0 1 0 7 1) 1 := by decide
 
 /-- Non-vacuity of `no_alias`. -/
 example : anyAlias (run St.init demoOps) 10 = false := no_alias _ _ inv_init demo_disc 10
@@ -361,6 +477,37 @@ theorem view_poke (s : St) (h i j v : Nat) (hi : Inv s) :
     show some (contentM (poke s h i j v).heap m) = some (pokeView (contentM s.heap m) i j v)
     rw [poke_content s h i j v m hi hq]
 
+/-- What the holder of `h` sees after `append` to its object `i`: one more value at the end of that object,
+whether the array had room or was relocated. -/
+theorem view_grow (s : St) (h i v c : Nat) (hi : Inv s) (hok : GrowOk s h i) :
+    view (grow s h i v c) h = (view s h).map (fun l => growView l i v) := by
+  cases hq : s.live h with
+  | none =>
+    rw [grow_none s h i v c hq]
+    simp [view, hq]
+  | some m =>
+    obtain ⟨m', a1, c1⟩ := grow_content s h i v c m hi hok hq
+    unfold view
+    rw [a1, hq]
+    show some (contentM (grow s h i v c).heap m') = some (growView (contentM s.heap m) i v)
+    rw [c1]
+
+/-- What the holder of `d` sees after an object with the fields `vs` was inserted at position `pos`. -/
+theorem view_ins (s : St) (d pos : Nat) (u : Bool) (k : Nat) (vs : List Nat) (hi : Inv s) :
+    view (ins s d pos u k vs).1 d = some (insertAt ((view s d).getD []) pos (k, vs)) := by
+  obtain ⟨_, l1, k1, c1, f1⟩ := ins_spec s d pos u k vs hi
+  unfold view
+  show Option.map _ ((insertLive (mkObj s u k vs).1 d pos (mkObj s u k vs).2.1).live d) = _
+  rw [insertLive_same, l1]
+  show some (contentM (mkObj s u k vs).1.heap (insertAt ((s.live d).getD []) pos (mkObj s u k vs).2.1)) = _
+  rw [contentM_insertAt, k1, c1]
+  cases hq : s.live d with
+  | none => rfl
+  | some m =>
+    have := contentM_congr _ _ m (f1 d m hq)
+    simp only [Option.getD_some, Option.map_some]
+    rw [this]
+
 /-- step_view_determined: the target's view after an operation is a function of the views of target and
 source before it. -/
 theorem step_view_determined (s1 s2 : St) (op : Op) (h1 : Inv s1) (h2 : Inv s2)
@@ -387,6 +534,29 @@ theorem step_view_determined (s1 s2 : St) (op : Op) (h1 : Inv s1) (h2 : Inv s2)
     show view (poke s1 h i j v) h = view (poke s2 h i j v) h
     replace ht : view s1 h = view s2 h := ht
     rw [view_poke s1 h i j v h1, view_poke s2 h i j v h2, ht]
+  | grow h i v c =>
+    show view (grow s1 h i v c) h = view (grow s2 h i v c) h
+    replace ht : view s1 h = view s2 h := ht
+    rw [view_grow s1 h i v c h1 o1, view_grow s2 h i v c h2 o2, ht]
+  | ins d pos u k vs =>
+    show view (ins s1 d pos u k vs).1 d = view (ins s2 d pos u k vs).1 d
+    replace ht : view s1 d = view s2 d := ht
+    rw [view_ins s1 d pos u k vs h1, view_ins s2 d pos u k vs h2, ht]
+
+/-- Non-vacuity of `step_view_determined` for `grow` and `ins`: the same append / insertion in a state whose
+pool holds a buffer and in one where it has been lost. -/
+example : view (step demoSt (.grow 1 0 9 0)) 1 = view (step (popDiscard demoSt kBuf) (.grow 1 0 9 0)) 1 :=
+  step_view_determined demoSt _ (.grow 1 0 9 0) demo_inv (popDiscard_spec demoSt kBuf demo_inv).1
+    (show GrowOk demoSt 1 0 by decide) (show GrowOk (popDiscard demoSt kBuf) 1 0 by decide) (by decide)
+    (fun a ha => by cases ha)
+example : view (step demoSt (.ins 1 2 true kBuf [8, 8])) 1 =
+    view (step (popDiscard demoSt kBuf) (.ins 1 2 true kBuf [8, 8])) 1 :=
+  step_view_determined demoSt _ (.ins 1 2 true kBuf [8, 8]) demo_inv (popDiscard_spec demoSt kBuf demo_inv).1
+    trivial trivial (by decide) (fun a ha => by cases ha)
+example : view (step demoSt (.ins 1 2 true kBuf [8, 8])) 1 =
+    some [(1, [1,1,1,1]), (1, [2,2,2,2]), (1, [8, 8]), (1, [3,3,3,3]), (1, [4,4,4,4]), (1, [5,5,5,5])] ∧
+    (ins demoSt 1 2 true kBuf [8, 8]).2 = true ∧ (ins (popDiscard demoSt kBuf) 1 2 true kBuf [8, 8]).2 = false := by
+  decide
 
 /-- Non-vacuity of `step_view_determined`: the same clone in a state whose pool holds a buffer and in one
 where the buffer has been lost (different pools, different allocation points). -/
@@ -534,5 +704,11 @@ example :
 #print axioms demo_invB
 #print axioms demo_disc2
 #print axioms specsOk_twoV6
+#print axioms view_grow
+#print axioms view_ins
+#print axioms specsOk_spare
+#print axioms demo_disc3
+#print axioms grow_isolated
+#print axioms no_cap_alias
 
 end Agd.Pools
